@@ -19,7 +19,7 @@ import (
 
 func TestMain(m *testing.M) {
 	document.SetGlobalLevel(document.LogLevelSilent)
-	kit.TestMain(m, 700, 8000)
+	kit.TestMain(m, 640, 8000)
 }
 
 // Case is one history: Ops build a document from scratch (with save/open cycles in between);
@@ -226,6 +226,7 @@ func genForeign(t *rapid.T) *Foreign {
 		}
 	}
 	widenForeign(t, f)
+	widenForeign3(t, f)
 	return f
 }
 
@@ -255,6 +256,10 @@ func genCase(t *rapid.T) Case {
 		if rapid.IntRange(0, 3).Draw(t, "postscn") == 0 {
 			c.Post = append(c.Post, scenario(t)...)
 		}
+		if (c.Foreign.Glossary > 0 || c.Foreign.DupRels > 0) && rapid.Bool().Draw(t, "astemplate") {
+			// the opened package serves as a template base; the render is extended and saved
+			c.Post = append(c.Post, cfg.OpOf(t, rapid.SampledFrom([]string{"tpldoc", "tpldoc", "tpldoc2"}).Draw(t, "tplk")), fix(t, cfg.OpOf(t, rapid.SampledFrom(relKinds).Draw(t, "relk"))))
+		}
 		return c
 	}
 	c.Ops = history(t, 1, kit.Scale(12, 36))
@@ -280,6 +285,7 @@ type runner struct {
 	dead     bool
 	w        *ops.C02W                              // widening ops (state that outlives one op)
 	baseOf   map[*document.Document]*opc.Package // the opened package each document object descends from (wswap)
+	glossary bool                                // the opened package has a glossary document
 }
 
 // where names the save being judged; a document that descends from an opened foreign package (the
@@ -472,6 +478,9 @@ func (r *runner) runOps(list []ops.Op, phase string) {
 			case "reopen":
 				r.res.Label("reopen")
 			case "tpldoc", "tpldoc2":
+				if r.base != nil && r.glossary {
+					r.res.Label("foreign:glossary-package-as-template-base")
+				}
 				r.base = nil // a rendered document is a new document (C18 judges what it keeps)
 				if (placeholder || (op.K == "tpldoc2" && len(op.B) > 0 && op.B[0])) && op.Data != nil && len(op.Data.Imgs) > 0 {
 					r.res.Label("tpl-image-placeholder")
@@ -574,9 +583,11 @@ func run(c Case) *kit.Result {
 					res.Label("foreign:notes-in-base")
 				}
 				widenForeignLabels(res, c.Foreign, info)
+				widenForeign3Labels(res, info)
 				r.shape = append(r.shape, fmt.Sprintf("F[%s %s n=%d hole=%v coll=%v nonrid=%v hl=%v hdr=%v ex=%d root=%d]", c.Foreign.Scheme, info.StylesID, info.N, info.HoleAtNext, info.CollideFirst, info.NonRid,
 					c.Foreign.Hyperlink, info.HdrRelsPart != "", len(c.Foreign.Extras), c.Foreign.Root))
-				r.shape = append(r.shape, widenShape(c.Foreign, info))
+				r.shape = append(r.shape, widenShape(c.Foreign, info), widenShape3(info))
+				r.glossary = info.GlossaryPart != ""
 				r.saveNow("open→save")
 				r.runOps(c.Post, "post")
 				if !r.dead {
@@ -628,7 +639,7 @@ func selfCheck(res *kit.Result, fb []byte) (*opc.Package, bool) {
 func TestC02(t *testing.T) {
 	kit.Main(t, kit.Spec[Case]{
 		ID: "C02", Level: "exploration",
-		Rule: "history of generated API calls weighted to relationship-creating calls (images in body and table cells, template image placeholders, headers/footers, lists, notes, note settings, properties) with save / reopen / template-render cycles in between; in half of the cases the saved package is rewritten by independent code into a foreign package (arbitrary, non-contiguous, non-rId relationship ids with a hole at count+2 or count+2 taken, styles relationship not rId1 / last / absent, external hyperlink, extra parts, header with its own relationship part, root with property relationships), opened and extended by a second history; one op in eight is a call with EDGE ARGUMENTS that the API rejects or may reject (nil / empty / undecodable / truncated image data, unknown or wrong declared format, missing / empty / non-image file or a directory, cell position outside the table, nil table, header/footer type strings outside default/first/even, nil configurations, list kinds and levels outside the defined ones, removal of unknown notes, template renders that fail half-way and are optionally repeated with repaired data, nil document properties, Save to a path that cannot be created), labelled by kind and counted by whether it really returned an error; about one op in five is a WIDENING call (valid calls through entry points the base interpreter does not reach: Document.Save to a file path read back and judged, Save+Open of a path, AddCellImageFromFile / AddCellImage with FilePath, Data+Format, AltText+Title+Height, several distinct image placeholders - names that are prefixes of one another or differ in case, in own paragraphs, in one paragraph, in table cells - rendered with pictures given as data / file path / SetImageWithDetails / floating configuration through TemplateEngine or TemplateRenderer.LoadTemplateFromFile, string templates with image placeholders, bursts of 2-13 and rarely 33 or 65 pictures in body and cells, the most recent side document swapped in as the current one so that two live documents are extended alternately (also with one and the same picture), a template engine that is kept and rendered from again after its base document changed, AddFootnoteToRun, removal of existing notes down to none, every enumerated footnote configuration, CreateMultiLevelList / RestartNumbering / deep lists, the single property setters, the image modifiers, all six header/footer definitions through mixed entry points twice), a third of them followed by a save; the foreign rewrite additionally produces ids that straddle the one/two-digit and two/three-digit boundary, exceed 32 and 64 bits, are prefixes of one another or differ in case only, 3-12 and rarely 31/63/97 more external hyperlink relationships, absolute targets, TargetMode=Internal written out, relationship parts with a namespace prefix, a first section (paragraph-level sectPr) that refers to a header only it uses, a notes part with its own relationship part, zip directory entries, and is opened from a file a third of the time; the current document is saved and judged right after EVERY call that returned an error; every package saved on the way is judged, and the documents that were replaced as the current one (template bases, first of two renders, documents before a reopen) are saved and judged at the end of the phase. non-trivial = some judged package has >=3 relationships besides styles, or the document was opened with non-dense ids and a later save has more relationships than the opened package; distinct = distinct sequence of (op kind, outcome) plus the facts of the foreign rewrite",
+		Rule: "history of generated API calls weighted to relationship-creating calls (images in body and table cells, template image placeholders, headers/footers, lists, notes, note settings, properties) with save / reopen / template-render cycles in between; in half of the cases the saved package is rewritten by independent code into a foreign package (arbitrary, non-contiguous, non-rId relationship ids with a hole at count+2 or count+2 taken, styles relationship not rId1 / last / absent, external hyperlink, extra parts, header with its own relationship part, root with property relationships), opened and extended by a second history; one op in eight is a call with EDGE ARGUMENTS that the API rejects or may reject (nil / empty / undecodable / truncated image data, unknown or wrong declared format, missing / empty / non-image file or a directory, cell position outside the table, nil table, header/footer type strings outside default/first/even, nil configurations, list kinds and levels outside the defined ones, removal of unknown notes, template renders that fail half-way and are optionally repeated with repaired data, nil document properties, Save to a path that cannot be created), labelled by kind and counted by whether it really returned an error; about one op in five is a WIDENING call (valid calls through entry points the base interpreter does not reach: Document.Save to a file path read back and judged, Save+Open of a path, AddCellImageFromFile / AddCellImage with FilePath, Data+Format, AltText+Title+Height, several distinct image placeholders - names that are prefixes of one another or differ in case, in own paragraphs, in one paragraph, in table cells - rendered with pictures given as data / file path / SetImageWithDetails / floating configuration through TemplateEngine or TemplateRenderer.LoadTemplateFromFile, string templates with image placeholders, bursts of 2-13 and rarely 33 or 65 pictures in body and cells, the most recent side document swapped in as the current one so that two live documents are extended alternately (also with one and the same picture), a template engine that is kept and rendered from again after its base document changed, AddFootnoteToRun, removal of existing notes down to none, every enumerated footnote configuration, CreateMultiLevelList / RestartNumbering / deep lists, the single property setters, the image modifiers, all six header/footer definitions through mixed entry points twice), a third of them followed by a save; the foreign rewrite additionally produces ids that straddle the one/two-digit and two/three-digit boundary, exceed 32 and 64 bits, are prefixes of one another or differ in case only, 3-12 and rarely 31/63/97 more external hyperlink relationships, absolute targets, TargetMode=Internal written out, relationship parts with a namespace prefix, a first section (paragraph-level sectPr) that refers to a header only it uses, a notes part with its own relationship part, zip directory entries, and is opened from a file a third of the time; a quarter of the foreign packages has a glossary document (word/glossary/document.xml with its own relationship part and styles/settings/fontTable parts, named from the main document), a quarter has a picture and/or a header/footer part that is the target of two relationships of the same type with the later use referring to the second one, and half of those packages serve as a template base (LoadTemplateFromDocument + render) in the second history; the current document is saved and judged right after EVERY call that returned an error; every package saved on the way is judged, and the documents that were replaced as the current one (template bases, first of two renders, documents before a reopen) are saved and judged at the end of the phase. non-trivial = some judged package has >=3 relationships besides styles, or the document was opened with non-dense ids and a later save has more relationships than the opened package; distinct = distinct sequence of (op kind, outcome) plus the facts of the foreign rewrite",
 		Gen:  genCase, Run: run, Findings: findings, Fixed: fixedCases,
 		Assumptions: []string{
 			"relationship parts, targets and sources are read by the harness's own OPC reader; references are the attributes in the officeDocument relationships namespace found by an encoding/xml token scan of the main document and of the header/footer/notes parts it names",
@@ -644,6 +655,8 @@ func TestC02(t *testing.T) {
 			"saved-to-path": 0.2, "reopened-from-path": 0.05, "two-documents-alternately": 0.03, "tpl-several-placeholders": 0.05, "tpl-through-TemplateRenderer-file": 0.02, "tpl-string-template-with-image": 0.02,
 			"kept-engine-rendered-later": 0.005, "count>=9": 0.03, "cell-image:from-file": 0.01, "cell-image:config-filepath": 0.01, "header/footer-defined-twice": 0.02, "note:footnote-to-run": 0.005,
 			"foreign:rels>=9": 0.1, "foreign:ids-straddle-digit-boundary": 0.05, "foreign:absolute-targets": 0.05, "foreign:prefixed-rels-part": 0.04, "foreign:explicit-TargetMode-Internal": 0.04,
-			"foreign:first-section-with-references": 0.04, "foreign:notes-own-rels": 0.01, "foreign:opened-from-file": 0.1, "foreign:zip-directory-entries": 0.02},
+			"foreign:first-section-with-references": 0.04, "foreign:notes-own-rels": 0.01, "foreign:opened-from-file": 0.1, "foreign:zip-directory-entries": 0.02,
+			// round 5
+			"foreign:glossary-document": 0.08, "foreign:glossary-package-as-template-base": 0.03, "foreign:two-relationships-one-target": 0.05, "foreign:second-of-two-relationships-referenced": 0.05},
 	})
 }
